@@ -32,6 +32,7 @@ def run(rep, tier):
     rep.rule("R3", "xdis.std's module-level names are the same-named members of the default API object and those are the same-named fields of its opcode table / bound finders")
     rep.rule("R4", "get_code_object probes __func__, __code__, gi_code, ag_code, cr_code, str (compile), co_code in dis._get_code_object's order")
     rep.rule("R5", "float version numbers 1.0 ... 3.9 convert to the right (major, minor)")
+    rep.rule("R8", "xdis.std.Bytecode constructs its base class with dup_lines=False (dis reports a line only where it changes)")
     rep.rule("R7", "like dis, xdis.std.get_instructions and iteration over xdis.std.Bytecode leave out the inline CACHE entries of 3.11+ code unless show_caches is given")
     rep.rule("R6", "what the API returns is what the shared machinery computes: for every opcode table make_std_api can select, the decoder (C02 widths/operands, "
                    "C03 operand values, C04 targets and labels) and the line-start finders (C05 rules) agree with Lib/dis.py of that version")
@@ -308,6 +309,18 @@ def run(rep, tier):
     dis_rules.restate_decoder(rep, T, "R6", tier)
     sub = SubReport("C05", tier=tier)
     c05.run(sub, tier)
-    merge_sub(rep, sub, "R6", "C05")
+    # C05-R7 is about the default of xdis.bytecode.Bytecode; xdis.std's own Bytecode class chooses the value itself (R8 below)
+    merge_sub(rep, sub, "R6", "C05", only_rules=tuple(r for r in ("R1", "R2", "R3", "R4", "R5", "R6")))
+    # ---------------------------------------------------------------- R8 xdis.std.Bytecode asks for dis's line semantics
+    dl = None
+    for c_ in ncls:
+        for n_ in ast.walk(c_):
+            if isinstance(n_, ast.Call) and ast.unparse(n_.func) == "_Bytecode.__init__":
+                dl = "default (True)"
+                for k_ in n_.keywords:
+                    if k_.arg == "dup_lines":
+                        dl = ast.unparse(k_.value)
+    rep.ob("R8", "xdis.std._StdApi.__init__.Bytecode.__init__", "dup_lines=False", dl == "False", expected="_Bytecode.__init__(..., dup_lines=False)", derived=dl,
+           msg="xdis.std.Bytecode builds its line starts with dup_lines=%s: instructions that begin a new lnotab entry on the same line get a starts_line that dis does not report" % dl)
     rep.assumptions = ["reference/codetype.json (dis._get_code_object of hosts 3.8-3.13)", "instruction fields, labels, line starts and stack effects are C02-C05, C15",
                        "equality of returned data with the host's dis is not evaluated; only the plumbing is decided"]
